@@ -9,8 +9,12 @@ import os, random, itertools
 import vlib
 from props import pspec, c15
 
-THEOREMS = []
-FILES = ['Model/PropTree.lean', 'Props/C13.lean']
+THEOREMS = ['Libvna.PT.' + t for t in (
+    'alookup_aset_same', 'alookup_aset_other', 'akeys_aset', 'akeys_nodup_aset', 'alookup_aerase_same', 'alookup_aerase_other', 'akeys_aerase',
+    'getPath_update', 'set_get', 'set_frame_map', 'set_frame_list', 'ins_shifts', 'app_appends', 'delete_map_key', 'delete_list_shift',
+    'delete_dot_nulls', 'refused_unchanged', 'scanKeyChars_quoteRest', 'scanKey_quoteKey', 'parse_quoteKey', 'quote_key_addresses_key')]
+USE_MODEL = True
+FILES = ['Model/PropTree.lean', 'Props/C13.lean', 'Driver/PropDrv.lean']
 
 KEYS = [b'a', b'b', b'key', b'two words', b'x-1', b'_u', b'my.key', b'sp  ', b'[0]', b'a=b', b'q\\r', b'\xc3\xa9t\xc3\xa9', b'{}', b'7up', b'h#sh', b' lead']
 VALUES = [b'v', b'', b'hello world', b' lead', b'a=b', b'#x', b'~', b'null', b'line1\nline2', b'3.14', b'\xe2\x82\xac', b'tab\there']
@@ -218,10 +222,11 @@ def run_scripts(chk, exe, scripts, broken, use_model):
 def run(chk):
     rng = random.Random(chk.seed * 31 + 13)
     broken = []
-    use_model = bool(THEOREMS)
+    use_model = USE_MODEL
     if THEOREMS:
         c15.proof_side(chk, ['Libvna.Props.C13'], THEOREMS, FILES, broken)
-    chk.trusted += ['tools/props/pspec.py: abstract document written from vnaproperty(3)']
+    chk.trusted += ['tools/props/pspec.py: abstract document written from vnaproperty(3)', 'Model/PropTree.lean: hand model (maps as ordered association lists; hash chains not modelled), tied by the correspondence run']
+    chk.checker_cmd = 'cd lean && lake build Libvna.Props.C13 && #print axioms'
     exe, _ = vlib.build_c()
     quick = chk.tier == 'quick'
     scripts = []
